@@ -305,7 +305,8 @@ class Node:
         If `replace` is true, previous metatdata will be cleared.
         """
         if replace or self._meta is None:
-            self._meta = values.copy()
+            # `meta` is `None` if empty
+            self._meta = values.copy() if values else None
         else:
             self._meta.update(values)
 
